@@ -416,8 +416,9 @@ impl Parent {
         match &end.killed {
             Some(Kill::HangCpu(s)) => {
                 return Ok((
-                    format!("hang|{}|{}", dec.name(), cb),
-                    format!("no result after {:.1} s CPU time on this input (killed)", s),
+                    // closed form: the input class varies with the seed and goes into the description
+                    format!("hang|{}|cpu_over_5s", dec.name()),
+                    format!("no result after {:.1} s CPU time on this input (killed); input class {}", s, cb),
                 ));
             }
             Some(Kill::WallOnly(s)) => {
